@@ -40,7 +40,7 @@ CLAIMED['C19'] = ('bounded symbolic execution of clang LLVM IR of nd_map (std::f
 CLAIMED['C17'] = ('bounded symbolic execution of clang LLVM IR of parameter packs, accessors and constructors + z3',
     'Positional helper at depth 1..10 over layers sharing one configuration type, for all configuration values; depth-5 stack read back layer by layer and rebuilt from the reported configurations and storage, equal at a symbolic coordinate.', '3.C17')
 CLAIMED['C05'] = ('bounded symbolic execution of clang LLVM IR of the converting constructors (heap, nd_map closures) + z3',
-    'All ordered pairs of the four storage orders, every extent vector within the bound, all stored bit patterns, symbolic probe coordinate: same configuration and values, source unchanged, own storage, round trip, no leak; whole-stack conversions across interpolators. CUDA device arrays are not covered (no CUDA headers in the image).', '3.C05')
+    'All ordered pairs of the four storage orders, every extent vector within the bound, all stored bit patterns, symbolic probe coordinate: same configuration and values, source unchanged, own storage, round trip, no leak; whole-stack conversions across interpolators; host array to CUDA device array under a host shim of the CUDA runtime (reduced assurance).', '3.C05')
 
 CLAIMED['C06'] = ('bounded symbolic execution of clang LLVM IR of dump/load over a modelled byte stream + z3 (bit-vectors)',
     'For every serialisable layer (catalogue of 13 stacks plus 8 per-layer stacks over a token probe), all configuration values and stored bit patterns, array length up to the bound: load(dump(f)) is bit-identical, the reader consumes exactly the written bytes, and the re-dump is byte-identical.', '3.C06')
